@@ -1,5 +1,297 @@
 package main
 
+import (
+	"bytes"
+	"fmt"
+	"go/ast"
+	"go/format"
+	"go/parser"
+	"go/token"
+	"os"
+	"os/exec"
+	"path/filepath"
+	"strconv"
+	"strings"
+)
+
+const vsyncPath = "github.com/mimiro-io/datahub/internal/verifrt/vsync"
+
+// packages whose sources are instrumented for the controlled scheduler
+var schedPackages = []string{
+	"internal/server",
+	"internal/jobs",
+	"internal/service/dataset",
+}
+
 func rewriteAll(repo, out string, replace map[string]string) ([]string, error) {
-	return nil, nil
+	var notes []string
+	// 1. badger commit hook
+	n, err := hookBadger(repo, out, replace)
+	if err != nil {
+		return nil, err
+	}
+	notes = append(notes, n...)
+	// 2. sync -> vsync, go statements, channel receives, timers
+	if os.Getenv("VGEN_NO_SCHED") == "" {
+		for _, pkg := range schedPackages {
+			files, _ := filepath.Glob(filepath.Join(repo, pkg, "*.go"))
+			for _, f := range files {
+				if strings.HasSuffix(f, "_test.go") {
+					continue
+				}
+				changed, src, ns, err := rewriteFile(f)
+				if err != nil {
+					return nil, fmt.Errorf("%s: %v", f, err)
+				}
+				for _, x := range ns {
+					notes = append(notes, filepath.Join(pkg, filepath.Base(f))+": "+x)
+				}
+				if !changed {
+					continue
+				}
+				dst := filepath.Join(out, "gen", pkg, filepath.Base(f))
+				if err := os.MkdirAll(filepath.Dir(dst), 0o755); err != nil {
+					return nil, err
+				}
+				if old, err := os.ReadFile(dst); err != nil || !bytes.Equal(old, src) {
+					if err := os.WriteFile(dst, src, 0o644); err != nil {
+						return nil, err
+					}
+				}
+				replace[f] = dst
+			}
+		}
+	}
+	return notes, nil
+}
+
+func hookBadger(repo, out string, replace map[string]string) ([]string, error) {
+	cmd := exec.Command("go", "list", "-m", "-f", "{{.Dir}} {{.Version}}", "github.com/dgraph-io/badger/v4")
+	cmd.Dir = repo
+	cmd.Env = append(os.Environ(), "GOFLAGS=-mod=mod", "GOPROXY=off", "GOSUMDB=off")
+	b, err := cmd.Output()
+	if err != nil {
+		return nil, fmt.Errorf("go list badger: %v", err)
+	}
+	parts := strings.Fields(string(b))
+	if len(parts) != 2 {
+		return nil, fmt.Errorf("unexpected go list output %q", b)
+	}
+	dir, ver := parts[0], parts[1]
+	src, err := os.ReadFile(filepath.Join(dir, "txn.go"))
+	if err != nil {
+		return nil, err
+	}
+	s := string(src)
+	sub := func(old, new string) error {
+		if strings.Count(s, old) != 1 {
+			return fmt.Errorf("badger %s txn.go: pattern %q found %d times (the hook generator must be adapted to this badger version)", ver, old, strings.Count(s, old))
+		}
+		s = strings.Replace(s, old, new, 1)
+		return nil
+	}
+	// before a real commit
+	if err := sub("\tdefer txn.Discard()\n\n\ttxnCb, err := txn.commitAndSend()\n\tif err != nil {\n\t\treturn err\n\t}\n",
+		"\tdefer txn.Discard()\n\n\tif VerifHook != nil {\n\t\tVerifHook(VerifBeforeCommit)\n\t}\n\ttxnCb, err := txn.commitAndSend()\n\tif err != nil {\n\t\treturn err\n\t}\n"); err != nil {
+		return nil, err
+	}
+	// after the commit returned
+	if err := sub("\t// Nothing gets updated to LSM, until a restart happens.\n\treturn txnCb()\n",
+		"\t// Nothing gets updated to LSM, until a restart happens.\n\tverifErr := txnCb()\n\tif VerifHook != nil {\n\t\tVerifHook(VerifAfterCommit)\n\t}\n\treturn verifErr\n"); err != nil {
+		return nil, err
+	}
+	// snapshot (read timestamp) taken
+	if err := sub("func (db *DB) NewTransaction(update bool) *Txn {\n\treturn db.newTransaction(update, false)\n}",
+		"func (db *DB) NewTransaction(update bool) *Txn {\n\tif VerifHook != nil {\n\t\tVerifHook(VerifSnapshot)\n\t}\n\treturn db.newTransaction(update, false)\n}"); err != nil {
+		return nil, err
+	}
+	s += `
+// ---- added by the verification overlay (vgen); not part of badger ----
+
+const (
+	VerifSnapshot     = 0
+	VerifBeforeCommit = 1
+	VerifAfterCommit  = 2
+)
+
+// VerifHook is called before a transaction takes its read timestamp, before a
+// non-empty transaction commits and after the commit returned.
+var VerifHook func(ev int)
+`
+	dst := filepath.Join(out, "gen", "badger", "txn.go")
+	if err := os.MkdirAll(filepath.Dir(dst), 0o755); err != nil {
+		return nil, err
+	}
+	if old, err := os.ReadFile(dst); err != nil || string(old) != s {
+		if err := os.WriteFile(dst, []byte(s), 0o644); err != nil {
+			return nil, err
+		}
+	}
+	replace[filepath.Join(dir, "txn.go")] = dst
+	return []string{"badger " + ver + ": txn.go hooked (snapshot, before-commit, after-commit)"}, nil
+}
+
+// rewriteFile instruments one source file. Rewrites:
+//   - import "sync"            -> import sync "<vsync>"
+//   - go f(args)               -> { fn, a0.. := f, args..; vsync.Go(func(){ fn(a0..) }) }
+//   - <-ch  (expression/stmt)  -> vsync.Recv(ch)
+//   - context.WithTimeout      -> vsync.WithTimeout
+//   - time.AfterFunc           -> vsync.AfterFunc
+func rewriteFile(path string) (bool, []byte, []string, error) {
+	fset := token.NewFileSet()
+	f, err := parser.ParseFile(fset, path, nil, parser.ParseComments)
+	if err != nil {
+		return false, nil, nil, err
+	}
+	var notes []string
+	changed := false
+	needVsync := false
+	// imports
+	for _, imp := range f.Imports {
+		p, _ := strconv.Unquote(imp.Path.Value)
+		if p == "sync" && imp.Name == nil {
+			imp.Path.Value = strconv.Quote(vsyncPath)
+			imp.Name = ast.NewIdent("sync")
+			changed = true
+			notes = append(notes, "sync -> vsync")
+		}
+	}
+	tmp := 0
+	var rewriteStmtList func(list []ast.Stmt) []ast.Stmt
+	rewriteExprs := func(n ast.Node) {
+		ast.Inspect(n, func(x ast.Node) bool {
+			switch t := x.(type) {
+			case *ast.SelectStmt:
+				// the communication clauses of a select are not rewritten (reported); their bodies are
+				notes = append(notes, fmt.Sprintf("select statement at %s: communication clauses left untouched", fset.Position(t.Pos())))
+			case *ast.CallExpr:
+				if sel, ok := t.Fun.(*ast.SelectorExpr); ok {
+					if id, ok := sel.X.(*ast.Ident); ok {
+						if id.Name == "context" && sel.Sel.Name == "WithTimeout" {
+							id.Name = "vsync"
+							needVsync, changed = true, true
+							notes = append(notes, "context.WithTimeout -> vsync.WithTimeout")
+						}
+						if id.Name == "time" && sel.Sel.Name == "AfterFunc" {
+							id.Name = "vsync"
+							needVsync, changed = true, true
+							notes = append(notes, "time.AfterFunc -> vsync.AfterFunc")
+						}
+					}
+				}
+			}
+			return true
+		})
+	}
+	// replace unary receives: walk all expression holders
+	var fixRecv func(e ast.Expr) ast.Expr
+	fixRecv = func(e ast.Expr) ast.Expr {
+		if u, ok := e.(*ast.UnaryExpr); ok && u.Op == token.ARROW {
+			needVsync, changed = true, true
+			notes = append(notes, fmt.Sprintf("receive at %s -> vsync.Recv", fset.Position(u.Pos())))
+			return &ast.CallExpr{Fun: &ast.SelectorExpr{X: ast.NewIdent("vsync"), Sel: ast.NewIdent("Recv")}, Args: []ast.Expr{u.X}}
+		}
+		return e
+	}
+	rewriteStmtList = func(list []ast.Stmt) []ast.Stmt {
+		for i, st := range list {
+			switch t := st.(type) {
+			case *ast.GoStmt:
+				needVsync, changed = true, true
+				notes = append(notes, fmt.Sprintf("go statement at %s -> vsync.Go", fset.Position(t.Pos())))
+				call := t.Call
+				var lhs []ast.Expr
+				var rhs []ast.Expr
+				var fun ast.Expr = call.Fun
+				if fl, ok := call.Fun.(*ast.FuncLit); ok {
+					// instrument the body of the literal too
+					fl.Body.List = rewriteStmtList(fl.Body.List)
+					rewriteExprs(fl.Body)
+				}
+				if _, isLit := call.Fun.(*ast.FuncLit); !isLit {
+					tmp++
+					fn := ast.NewIdent(fmt.Sprintf("verifFn%d", tmp))
+					lhs = append(lhs, fn)
+					rhs = append(rhs, call.Fun)
+					fun = fn
+				}
+				var args []ast.Expr
+				for _, a := range call.Args {
+					tmp++
+					id := ast.NewIdent(fmt.Sprintf("verifArg%d", tmp))
+					lhs = append(lhs, id)
+					rhs = append(rhs, a)
+					args = append(args, id)
+				}
+				inner := &ast.CallExpr{Fun: fun, Args: args, Ellipsis: call.Ellipsis}
+				goCall := &ast.ExprStmt{X: &ast.CallExpr{
+					Fun:  &ast.SelectorExpr{X: ast.NewIdent("vsync"), Sel: ast.NewIdent("Go")},
+					Args: []ast.Expr{&ast.FuncLit{Type: &ast.FuncType{Params: &ast.FieldList{}}, Body: &ast.BlockStmt{List: []ast.Stmt{&ast.ExprStmt{X: inner}}}}},
+				}}
+				block := &ast.BlockStmt{}
+				if len(lhs) > 0 {
+					block.List = append(block.List, &ast.AssignStmt{Lhs: lhs, Tok: token.DEFINE, Rhs: rhs})
+				}
+				block.List = append(block.List, goCall)
+				list[i] = block
+			case *ast.ExprStmt:
+				t.X = fixRecv(t.X)
+			case *ast.AssignStmt:
+				for j := range t.Rhs {
+					if len(t.Lhs) == len(t.Rhs) { // v, ok := <-ch is left alone
+						t.Rhs[j] = fixRecv(t.Rhs[j])
+					}
+				}
+			}
+		}
+		return list
+	}
+	ast.Inspect(f, func(n ast.Node) bool {
+		switch t := n.(type) {
+		case *ast.BlockStmt:
+			t.List = rewriteStmtList(t.List)
+		case *ast.CaseClause:
+			t.Body = rewriteStmtList(t.Body)
+		case *ast.CommClause:
+			t.Body = rewriteStmtList(t.Body)
+		}
+		return true
+	})
+	rewriteExprs(f)
+	if !changed {
+		return false, nil, notes, nil
+	}
+	if needVsync {
+		has := false
+		for _, imp := range f.Imports {
+			p, _ := strconv.Unquote(imp.Path.Value)
+			if p == vsyncPath && imp.Name != nil && imp.Name.Name == "vsync" {
+				has = true
+			}
+		}
+		if !has {
+			spec := &ast.ImportSpec{Name: ast.NewIdent("vsync"), Path: &ast.BasicLit{Kind: token.STRING, Value: strconv.Quote(vsyncPath)}}
+			added := false
+			for _, d := range f.Decls {
+				if gd, ok := d.(*ast.GenDecl); ok && gd.Tok == token.IMPORT {
+					gd.Specs = append(gd.Specs, spec)
+					if !gd.Lparen.IsValid() {
+						gd.Lparen = gd.Pos()
+						gd.Rparen = gd.End()
+					}
+					added = true
+					break
+				}
+			}
+			if !added {
+				f.Decls = append([]ast.Decl{&ast.GenDecl{Tok: token.IMPORT, Specs: []ast.Spec{spec}}}, f.Decls...)
+			}
+		}
+	}
+	var buf bytes.Buffer
+	buf.WriteString("// Code generated by /verif/tools/vgen from " + path + "; DO NOT EDIT.\n")
+	if err := format.Node(&buf, fset, f); err != nil {
+		return false, nil, notes, err
+	}
+	return true, buf.Bytes(), notes, nil
 }
